@@ -68,10 +68,10 @@ func c03Specs(tier string, seed int) []c03Spec {
 		}
 	}
 	// lines carrying overrides followed by lines without them (and the other way round) in one session
-	for _, b := range [][]string{{"Ao", "A"}, {"Ao", "A2", "B"}, {"A", "Ao", "A2"}, {"Bo", "B", "A"}, {"Ao", "Bo", "A"}, {"Bo", "Ao", "B"}, {"A", "B", "Ao"}} {
+	for _, b := range [][]string{{"A", "Ag"}, {"Ag", "A"}, {"Ag", "A2", "A"}, {"Ao", "A"}, {"Ao", "A2", "B"}, {"A", "Ao", "A2"}, {"Bo", "B", "A"}, {"Ao", "Bo", "A"}, {"Bo", "Ao", "B"}, {"A", "B", "Ao"}} {
 		out = append(out, c03Spec{Kind: "seq", Batch: b})
 	}
-	out = append(out, c03Spec{Kind: "e3", Batch: []string{"Ao", "A2", "Bo"}, Conc: 2, Bound: bound, Days: 3}, c03Spec{Kind: "e3", Batch: []string{"Bo", "A"}, Conc: 2, Bound: -1, Days: 2})
+	out = append(out, c03Spec{Kind: "e3", Batch: []string{"Ao", "A2", "Bo"}, Conc: 2, Bound: bound, Days: 3}, c03Spec{Kind: "e3", Batch: []string{"Bo", "A"}, Conc: 2, Bound: -1, Days: 2}, c03Spec{Kind: "e3", Batch: []string{"Ag", "A"}, Conc: 2, Bound: -1, Days: 2})
 	out = append(out, c03Spec{Kind: "race", Conc: 4}, c03Spec{Kind: "race", Conc: 8})
 	// the same line again and again in fresh sessions (the runtime randomises map iteration per execution), with the
 	// batch-line arguments in every order
